@@ -60,18 +60,57 @@ pub fn eval(expr: Node) -> Result<i64, Box<dyn error::Error>> {
         Number(i) => Ok(i),
         And(expr1, expr2) => Ok(eval(*expr1)? & eval(*expr2)?),
         Or(expr1, expr2) => Ok(eval(*expr1)? | eval(*expr2)?),
-        LeftShift(expr1, expr2) => Ok(eval(*expr1)? << eval(*expr2)?),
-        RightShift(expr1, expr2) => Ok(eval(*expr1)? >> eval(*expr2)?),
-        Add(expr1, expr2) => Ok(eval(*expr1)? + eval(*expr2)?),
-        Subtract(expr1, expr2) => Ok(eval(*expr1)? - eval(*expr2)?),
-        Multiply(expr1, expr2) => Ok(eval(*expr1)? * eval(*expr2)?),
-        Divide(expr1, expr2) => Ok(eval(*expr1)? / eval(*expr2)?),
-        Modulo(expr1, expr2) => Ok(eval(*expr1)? % eval(*expr2)?),
-        Negative(expr1) => Ok(-(eval(*expr1)?)),
-        Pow(expr1, expr2) => Ok(eval(*expr1)?.pow(eval(*expr2)? as u32)),
+        LeftShift(expr1, expr2) => {
+            let value = eval(*expr1)?;
+            let count = eval(*expr2)?;
+            if !(0..=63).contains(&count) {
+                return Err("The shift count must be between 0 and 63".into());
+            }
+            i64::try_from((value as i128) << count).map_err(|_| "Integer overflow".into())
+        }
+        RightShift(expr1, expr2) => {
+            let value = eval(*expr1)?;
+            let count = eval(*expr2)?;
+            if !(0..=63).contains(&count) {
+                return Err("The shift count must be between 0 and 63".into());
+            }
+            Ok(value >> count)
+        }
+        Add(expr1, expr2) => eval(*expr1)?
+            .checked_add(eval(*expr2)?)
+            .ok_or_else(|| "Integer overflow".into()),
+        Subtract(expr1, expr2) => eval(*expr1)?
+            .checked_sub(eval(*expr2)?)
+            .ok_or_else(|| "Integer overflow".into()),
+        Multiply(expr1, expr2) => eval(*expr1)?
+            .checked_mul(eval(*expr2)?)
+            .ok_or_else(|| "Integer overflow".into()),
+        Divide(expr1, expr2) => eval(*expr1)?
+            .checked_div(eval(*expr2)?)
+            .ok_or_else(|| "Division by zero or integer overflow".into()),
+        Modulo(expr1, expr2) => {
+            let dividend = eval(*expr1)?;
+            let divisor = eval(*expr2)?;
+            if divisor == 0 {
+                return Err("Division by zero".into());
+            }
+            Ok(dividend.wrapping_rem(divisor))
+        }
+        Negative(expr1) => eval(*expr1)?
+            .checked_neg()
+            .ok_or_else(|| "Integer overflow".into()),
+        Pow(expr1, expr2) => {
+            let base = eval(*expr1)?;
+            let exponent = u32::try_from(eval(*expr2)?)
+                .map_err(|_| "The exponent must be between 0 and 4294967295")?;
+            base.checked_pow(exponent)
+                .ok_or_else(|| "Integer overflow".into())
+        }
         Factorial(sub_expr) => {
             let sub_result = eval(*sub_expr)?;
-            if sub_result >= 0 {
+            if sub_result > 20 {
+                Err("Integer overflow".into())
+            } else if sub_result >= 0 {
                 let mut factorial_result = 1;
                 for i in 2..=(sub_result as usize) {
                     #[cfg(feature = "verif_hooks")]
@@ -83,7 +122,9 @@ pub fn eval(expr: Node) -> Result<i64, Box<dyn error::Error>> {
                 Ok(0)
             }
         }
-        Abs(sub_expr) => Ok(eval(*sub_expr)?.abs()),
+        Abs(sub_expr) => eval(*sub_expr)?
+            .checked_abs()
+            .ok_or_else(|| "Integer overflow".into()),
         Sqrt(sub_expr) => {
             let before_sqr = eval(*sub_expr)? as f64;
             Ok(before_sqr.sqrt() as i64)
@@ -107,6 +148,8 @@ pub fn eval(expr: Node) -> Result<i64, Box<dyn error::Error>> {
             let result = eval(*sub_expr)?;
             if result < 0 {
                 Ok(0)
+            } else if result > 62 {
+                Err("Integer overflow".into())
             } else {
                 Ok(1 << result)
             }
